@@ -21,7 +21,8 @@ PROPS = {
              'not error codes or receipts. Assumed: genesis amounts >= 0 and GenesisInitExec amounts within the '
              'per-operation rule (the code panics otherwise); executor addresses are passed in canonical spelling; '
              'users never coincide with executor addresses. Sub-ledger values between MaxTokenBalance and MaxInt64 are '
-             'accepted as the code does. TLC bounds: depth 3 (3 users/2 executors) and depth 6 (2 users/1 executor).',
+             'accepted as the code does. TLC bounds: all operations to depth 3 (3 users/2 executors) and depth 6 (2 users/1 '
+             'executor); the conserving operations (transfers, freeze/activate) to depth 6 on 3 users/2 executors.',
     ),
 }
 
@@ -68,7 +69,7 @@ def run(ctx):
                         'genesis amounts >= 0; GenesisInitExec amounts within the per-operation rule',
                         'executor addresses in canonical spelling; users are not executor addresses',
                         'only ok/err compared (no error codes, receipts)',
-                        'TLC bounds: 3 users x 2 executors depth 3; 2 users x 1 executor depth 6']
+                        'TLC bounds: 3 users x 2 executors depth 3 (all operations) / depth 6 (conserving operations); 2 users x 1 executor depth 6']
     # 1. the property on the model
     if q:
         ctx.tlc_mc('Account_MC', 'Account_MCq.cfg', workers=4, timeout=3600)
@@ -78,6 +79,7 @@ def run(ctx):
             raise vlib.Broken('vacuous model: actions never taken: %s' % r['zero_actions'][:5])
         ctx.tlc_mc('Account_MC', 'Account_MC.cfg', workers=4, timeout=14400)
         ctx.tlc_mc('Account_MC', 'Account_MCd.cfg', workers=4, timeout=14400)
+        ctx.tlc_mc('Account_MC', 'Account_MCt.cfg', workers=4, timeout=14400)
     b = vlib.build(DRIVER)
     # 2. exhaustive export: every operation x spelling combination x amount from every initial ledger
     all1 = ctx.tlc_genall('Account_All', 'Account_All1.cfg', timeout=3600)
@@ -101,11 +103,11 @@ def run(ctx):
         _selftest_replay(ctx, b, bs)
     # 4. recorded random histories of the real ledger validated by the trace specification
     ctx.validate_recording(b, 'Account_Trace', 'Account_Trace.cfg',
-                           opts=dict(n=20 if q else 150, users=6, execs=3, depth=50, unit='1e14'),
+                           opts=dict(n=20 if q else 300, users=6, execs=3, depth=50, unit='1e14'),
                            selftest=True, timeout=7200)
     if not q:
         ctx.validate_recording(b, 'Account_Trace', 'Account_Trace.cfg',
-                               opts=dict(n=100, users=6, execs=3, depth=50, unit='1e14', ledger='token', rsalt=1),
+                               opts=dict(n=200, users=6, execs=3, depth=50, unit='1e14', ledger='token', rsalt=1),
                                selftest=False, timeout=7200)
 
 
